@@ -22,18 +22,25 @@ if [ $applies = yes ]; then
   (cd "$wt" && cmake -G Ninja -B _b -DCMAKE_BUILD_TYPE=RelWithDebInfo -DCMAKE_CXX_FLAGS=-Wno-error -DBUILD_BENCHMARK=OFF -DBUILD_DOCUMENTS=OFF -DYAKUSHIMA_MAX_PARALLEL_SESSIONS=32 . > cfg.log 2>&1 && ninja -C _b -k 0 -j ${JOBS:-12} > build.log 2>&1)
   nbin=$(ls "$wt/_b/test" 2>/dev/null | grep -c '^yakushima_test-')
   [ "$nbin" -ge 70 ] && builds=yes
-  tests=$(cd "$wt" && ctest --test-dir _b -j6 --timeout 300 -E "delete_100k|iscan_concurrent" 2>&1 | grep -E "tests passed|tests failed" | tail -1)
+  (cd "$wt" && ctest --test-dir _b -j6 --timeout 300 -E "delete_100k|iscan_concurrent" > ctest.log 2>&1)
+  tests=$(grep -E "tests passed|tests failed" "$wt/ctest.log" | tail -1)
+  failed=$(grep -E "^\s+[0-9]+ - " "$wt/ctest.log" | tr -s ' ' | tr '\n' ';')
+  if [ -n "$failed" ]; then
+    # a failure may be a timeout of a multi-thread test on this loaded machine: run the failed tests once more, alone
+    (cd "$wt" && ctest --test-dir _b -j1 --timeout 600 --rerun-failed > ctest2.log 2>&1)
+    tests="$tests | failed: $failed | rerun alone: $(grep -E 'tests passed|tests failed' "$wt/ctest2.log" | tail -1)"
+  fi
 fi
 mkdir -p "$out"
 cp "$mdir/patch.diff" "$out/patch.diff"
 for f in "$mdir"/*; do b=$(basename "$f"); [ "$b" != patch.diff ] && cp -r "$f" "$out/$b"; done
-python3 - "$out" "$name" "$pid" "$applies" "$builds" "$tests" "$demo_with" "$demo_without" "$nbin" <<'EOF'
+python3 - "$out" "$name" "$pid" "$applies" "$builds" "$tests" "$demo_with" "$demo_without" "${nbin:-0}" <<'EOF'
 import json,sys
 out,name,pid,applies,builds,tests,dw,dwo,nbin=sys.argv[1:10]
 meta={"name":name,"property":pid,"patch_applies_to_repo_head":applies=="yes","test_binaries_built":int(nbin or 0),"builds":builds=="yes",
       "ctest_summary_with_change":tests,"ctest_command":"ctest --test-dir _b -j6 --timeout 300 -E 'delete_100k|iscan_concurrent' (71 binaries built with -DYAKUSHIMA_MAX_PARALLEL_SESSIONS=32)",
       "demo_exit_with_change":int(dw) if dw else None,"demo_exit_without_change":int(dwo) if dwo else None,
-      "confirmed": applies=="yes" and builds=="yes" and "100% tests passed" in tests and dw not in ("","0") and dwo=="0"}
+      "confirmed": applies=="yes" and builds=="yes" and ("100% tests passed" in tests.split("|")[0] or "rerun alone: 100% tests passed" in tests) and dw not in ("","0") and dwo=="0"}
 json.dump(meta,open(out+"/meta.json","w"),indent=1)
 print(json.dumps(meta,indent=1))
 EOF
